@@ -69,7 +69,7 @@ LOCKMON = ["-DLOCKMON", "-Wl,--wrap=pthread_mutex_lock", "-Wl,--wrap=pthread_mut
 LAST = {}
 
 
-def run_h(ctx, exe, jobs, nthreads, coexist, churn, tsan=False, timeout=1800, hold=None, cwd=None):
+def run_h(ctx, exe, jobs, nthreads, coexist, churn, tsan=False, timeout=1800, hold=None, cwd=None, perturb=None):
     """returns (exit code, {job: result}, ids, stderr); LAST holds the F lines, lock-balance counters and the jobs whose nested
     partner was never started, of the most recent call"""
     import subprocess
@@ -77,6 +77,8 @@ def run_h(ctx, exe, jobs, nthreads, coexist, churn, tsan=False, timeout=1800, ho
     env = dict(os.environ)
     if tsan:
         env["TSAN_OPTIONS"] = TSAN_ENV
+    if perturb is not None:
+        env["MALLOC_PERTURB_"] = str(perturb)      # glibc fills every malloc'ed block with a byte pattern derived from this
     args = [str(nthreads), str(coexist), str(churn)] + ([str(hold)] if hold is not None else [])
     LAST.clear()
     LAST.update({"F": {}, "lockbal": None, "notnested": [], "timeout": False})
@@ -242,8 +244,9 @@ def explore_with(ctx, exe, exet, budget, tsan_budget, repeats, thread_counts, hi
     tie = gt.fixed_tie_job()
     # the fixed tie job (order of equal-keyed items in BASIC lists) runs as the FIRST instance of every process, in the middle and
     # last: identical jobs at different points of a process's allocation history must give identical bytes
-    strict = [tie] + [j for j in jobs[:nf] if j[0] not in TRANSPORT_FAMILIES] + loads[:len(loads) // 2] + [tie] + loads[len(loads) // 2:] + \
-        [j for j in jobs[nf:] if j[0] not in TRANSPORT_FAMILIES] + [tie]
+    dims = gt.fixed_dim_jobs()
+    strict = dims + [tie] + [j for j in jobs[:nf] if j[0] not in TRANSPORT_FAMILIES] + loads[:len(loads) // 2] + [tie] + loads[len(loads) // 2:] + \
+        [j for j in jobs[nf:] if j[0] not in TRANSPORT_FAMILIES] + dims + [tie]
     trans = [j for j in jobs if j[0] in TRANSPORT_FAMILIES] + gt.multi_d_jobs(rng, max(2, budget // 10))
     for j in strict + trans:
         hist["families"][j[0]] = hist["families"].get(j[0], 0) + 1
@@ -264,6 +267,26 @@ def explore_with(ctx, exe, exet, budget, tsan_budget, repeats, thread_counts, hi
             continue
         hist["jobs_with_error_rc"] += sum(1 for r in ref.values() if r["rc"] != 0)
         duplicates(ctx, f"{label}, sequential", js, ref, judged, hist, {"mode": "seq", "coexist": 0, "churn": 0})
+        # uninitialised heap memory: two sequential runs whose malloc'ed blocks are pre-filled with different byte patterns
+        # (glibc MALLOC_PERTURB_); a result that depends on memory nobody wrote differs between them (no race involved)
+        pr = {}
+        for pb in (85, 170):
+            rc, pr[pb], _, err = run_h(ctx, exe, js, 1, 0, 0, perturb=pb)
+            evals += len(js)
+            hist["perturbed_runs"] += 1
+            if rc != 0 and judged:
+                ctx.violation(f"{label} jobs with MALLOC_PERTURB_={pb}: process ended abnormally (exit {rc})",
+                              {"mode": "seq", "coexist": 0, "churn": 0, "jobs": js, "malloc_perturb": pb, "stderr": err[-1500:]})
+        for a_, b_, lab in ((pr[85], pr[170], "MALLOC_PERTURB_=85 vs =170"), (ref, pr[85], "no perturbation vs MALLOC_PERTURB_=85")):
+            bad = compare(ctx, lab, js, a_, b_, judged, hist)
+            for k, what in bad[:3]:
+                what = "results depend on uninitialised heap memory: " + what
+                if judged:
+                    ctx.violation(what, {"mode": "perturb", "jobs": [js[k]], "job_index": 0})
+                else:
+                    ctx.finding("transport-file-scope-globals", what, {"mode": "perturb", "jobs": js})
+            if bad:
+                break
         # the same jobs in another order (each instance then has other predecessors: another allocation history)
         perm = list(range(len(js)))
         rng.shuffle(perm)
@@ -531,7 +554,7 @@ def run(ctx):
     hist = {"families": {}, "job_comparisons": 0, "sequential_reruns": 0, "thread_runs": 0, "tsan_runs": 0, "tsan_reports": 0,
             "tsan_reports_known": 0, "ids_checked": 0, "jobs_with_error_rc": 0, "lock_balance_runs": 0, "unlock_without_lock": 0,
             "hold_hist": {}, "nested_pairs": {}, "nested_identical": 0, "nested_known_effect": 0, "nested_not_reached": 0,
-            "default_name_checks": 0, "id_pairs": [], "burst_runs": 0, "duplicate_comparisons": 0, "permuted_reruns": 0}
+            "default_name_checks": 0, "id_pairs": [], "burst_runs": 0, "duplicate_comparisons": 0, "permuted_reruns": 0, "perturbed_runs": 0}
     audit, glob = {}, {}
     translators_ok = True
     try:
@@ -607,6 +630,13 @@ def replay(ctx, data):
     duplicates(ctx, "replayed, sequential", jobs, ref, True, hist, {"mode": "seq"})
     if LAST.get("lockbal") and LAST["lockbal"][0] + LAST["lockbal"][1] > 0:
         ctx.violation(f"replayed: a lock was released without being held (qsort_lock, map_lock) = {LAST['lockbal']}", {"jobs": jobs, "mode": "seq"})
+    if mode == "perturb":
+        a = run_h(ctx, exe, jobs, 1, 0, 0, perturb=85)[1]
+        b = run_h(ctx, exe, jobs, 1, 0, 0, perturb=170)[1]
+        for k, what in compare(ctx, "MALLOC_PERTURB_=85 vs =170", jobs, a, b, True, hist) + compare(ctx, "no perturbation vs 85", jobs, ref, a, True, hist):
+            ctx.violation("replayed: results depend on uninitialised heap memory: " + what, {"jobs": jobs, "mode": mode})
+        ctx.cov["evaluations"] = len(jobs)
+        return
     if mode == "nested":
         rc, got, ids, err = run_h(ctx, exe, jobs, 0, 0, 0, hold=data.get("at", 3))
         if rc != 0:
